@@ -3705,8 +3705,8 @@ class Score(object):
         self.parts[index] = part
 
     def __iter__(self) -> Iterator[Part]:
-        self.iter_idx = 0
-        return self
+        # a fresh iterator per call, so that nested or interleaved iterations are independent
+        return iter(self.parts)
 
     def __next__(self) -> Part:
         if self.iter_idx == len(self.parts):
